@@ -28,6 +28,10 @@ _lock = threading.Lock()
 GOENV = dict(os.environ, GOFLAGS="-mod=mod", GOPROXY="off", GOSUMDB="off", GOTOOLCHAIN="local")
 
 
+class Violated(Exception):
+    """A violation has been reported and the check cannot go on (e.g. the pool every case needs does not parse)."""
+
+
 class Inconclusive(Exception):
     """Machinery problem: exit 2, never a verdict."""
 
@@ -138,6 +142,11 @@ class Ctx:
             f.write(p.stdout[-200000:])
             f.write("\n--- stderr ---\n")
             f.write(p.stderr[-200000:])
+        if p.returncode == 3 and "SPEC-REJECTED:" in (p.stderr or ""):
+            msg = [l for l in p.stderr.splitlines() if l.startswith("SPEC-REJECTED:")][0][len("SPEC-REJECTED:"):].strip()
+            self.report("the real parser refuses a rule the specification gives a meaning to: " + msg,
+                        {"reexec": [str(a) for a in args[:1]], "what": msg}, {"cause": "parser-rejects-valid-rule"})
+            raise Violated(msg)
         if p.returncode != 0 and check:
             raise Inconclusive("harness failed (rc=%d): vh %s\n%s" % (
                 p.returncode, " ".join(map(str, args)), (p.stderr or p.stdout)[-3000:]))
@@ -152,10 +161,11 @@ class Ctx:
                     continue
         if last is None and check:
             raise Inconclusive("harness printed no summary: vh %s\n%s" % (" ".join(map(str, args)), p.stdout[-2000:]))
-        if last is not None:
-            last["_wall"] = time.time() - t
-            last["_stderr"] = p.stderr[-20000:]
-            last["_rc"] = p.returncode
+        if last is None:
+            last = {"_crashed": True}       # only reachable with check=False
+        last["_wall"] = time.time() - t
+        last["_stderr"] = p.stderr[-20000:]
+        last["_rc"] = p.returncode
         return last
 
     # ------------------------------------------------------------------ TLC
